@@ -10,11 +10,13 @@ from .run_prog import Engines
 # deviation switches that may excuse an engine, by engine; only switches listed in
 # known_findings.json with status "known" are ever used.
 ENGINE_SWITCHES = {
-    "vm": ["VM_EAGER_ANDOR", "VM_NO_BLOCK_SCOPE", "VM_FOR_CONTINUE", "VM_MIN_WRONG", "DIV_MIN_NEG1_TRAPS", "VM_ENUM_PRINT"],
+    "vm": ["VM_EAGER_ANDOR", "VM_NO_BLOCK_SCOPE", "VM_FOR_CONTINUE", "VM_MIN_WRONG", "DIV_MIN_NEG1_TRAPS", "VM_ENUM_PRINT", "RAW_STRING_ESCAPES",
+           "CALL_PREFERS_TOPLEVEL_FUNCTION"],
     "native": ["NATIVE_ARGS_RTL", "NATIVE_FOR_IN_ARRAY_SKIPPED", "DIV_MIN_NEG1_TRAPS", "NATIVE_VAR_OPERAND_READ_LATE",
-               "NATIVE_BREAK_IN_MATCH"],
+               "NATIVE_BREAK_IN_MATCH", "CALL_PREFERS_TOPLEVEL_FUNCTION"],
     "interp": ["INTERP_DYNAMIC_SCOPE", "INTERP_RETURN_IN_MATCH_ARM", "NATIVE_FOR_IN_ARRAY_SKIPPED", "INTERP_NO_BLOCK_SCOPE",
-               "INTERP_ARRAY_LIT_FIRST_TWICE", "INTERP_STATIC_ARRAYS"],
+               "INTERP_ARRAY_LIT_FIRST_TWICE", "INTERP_STATIC_ARRAYS", "RAW_STRING_ESCAPES", "CALL_PREFERS_TOPLEVEL_FUNCTION",
+               "INTERP_NO_NESTED_ARRAYS"],
 }
 
 
